@@ -36,8 +36,10 @@ NOT covered (and why):
    schedules (service loops are run for a scripted number of events and left by the pseudo exceptions StopLoop / Deadlock);
    concurrent receivePacket / run on the same queue rely on queue.Queue being thread safe; `disconnect()` setting
    `_socket = None` while `_readData` loops, `_CPXReceiveThread.stop()` and `CPXRouter.transport()` are not analysed;
- * UARTTransport (0xFF start byte, XOR checksum, CTS flow control with a lock released by the reader): the property is
-   about the TCP stream; the serial driver is covered from CRTP packet to CPX packet (wire data) only;
+ * UARTTransport: frame layout, 100-byte limit, clear-to-send tokens and the write -> read round trip are covered by uart.*
+   for payload lengths 0, 1, 30, 98 on a port model that returns exactly the requested bytes; NOT covered: the writer
+   blocking on the clear-to-send lock while the reader thread releases it (interleaving), checksum errors (the code only
+   prints), noise before the sync token in connect();
  * encoding (`_get_wire_data`) for a payload of symbolic length: the engine cannot extend a concrete bytearray by a
    symbolic-length sequence, so encode / writePacket are proved for the enumerated payload lengths 0, 1, 30 (and 65533/65534
    with concrete content); decoding and re-assembly ARE proved for every length (tcp.readPacket.inductive);
@@ -763,3 +765,135 @@ def dispatch_burst(c):
     c.let('got', got)
     c.let('pks', tuple(pks))
     c.ensure('whole-burst-in-arrival-order', 'got == %d and all(is_same(x, y) for x, y in zip((%s), pks))' % (n, ', '.join('b%d' % i for i in range(n))))
+
+
+# ------------------------------------------------------------------------- UART transport (the serial driver's CPX link)
+#
+# Frame: 0xFF, length of the CPX wire data, the wire data, XOR of all preceding bytes.  Flow control: a frame of length 0 is a
+# clear-to-send token; the writer takes a lock per frame and the reader releases it when the token arrives.  pyserial is an
+# optional dependency (not installed here): the module attribute `serial` is a contract stub whose Serial() returns a port
+# model.  Port model: read(n) returns exactly the next n bytes of the scripted stream (pyserial with timeout=None blocks
+# until n bytes arrived); nothing left -> pseudo exception Deadlock.
+
+UART = [TRN + ':UARTTransport.__init__', TRN + ':UARTTransport.connect', TRN + ':UARTTransport._calcXORchecksum']
+
+
+def uart(c, stream='b""', total=0):
+    """a UARTTransport built by its real constructor: the peer's sync token (0xFF, 0x00) is scripted in front of `stream`"""
+    st = {'pos': 0}
+    block = c.raiser('Deadlock', 'read on an exhausted serial stream blocks for ever')
+    c.snapshot('uart_stream', "b'\\xff\\x00' + " + stream)
+    c.reset_trace()
+
+    def read(_i, args, _k):
+        n = args[0]
+        if type(n) is not int:
+            from pyvc.core import OutOfSubset
+            raise OutOfSubset('serial model: read size must be a concrete int, got %r' % (n,))
+        if st['pos'] + n > total + 2:
+            return block()
+        lo = st['pos']
+        st['pos'] = lo + n
+        return c.snapshot('_chunk', 'bytes(uart_stream[%d:%d])' % (lo, lo + n))
+    port = c.ext('ser', returns={'read': read})
+    c.patch(TRN + ':serial', c.ext('serial', returns={'Serial': lambda *_a: port}), create=True)
+    tx = c.new(TRN + ':UARTTransport', '/dev/ttyUSB0', 576000)
+    c.let('tx', tx)
+    c.require("calls('ser.') == ('ser.read', 'ser.read', 'ser.write') and bytes(sent('ser.write')[0][1][0]) == b'\\xff\\x00'")
+    c.reset_trace()
+    return tx, st
+
+
+def xor_of(expr, n):
+    return ' ^ '.join(['0'] + ['%s[%d]' % (expr, i) for i in range(n)])        # same order as _calcXORchecksum
+
+
+def _uart_write(paylen):
+    @contract('C18', 'uart.write.len%d' % paylen, UART + [TRN + ':UARTTransport.writePacket'] + CODEC[:2],
+              clause='CRTP packets tunnelled through CPX arrive unchanged (serial link): writePacket puts exactly one frame on the line - '
+                     '0xFF, length of the CPX wire data, the two header bytes and the payload, XOR checksum of everything before it - for every '
+                     'packet whose wire data fits the 100-byte frame limit, and holds the clear-to-send lock until the peer answers',
+              bounded='payload length %d (98 = the largest that fits)' % paylen, max_paths=1000)
+    def k(c):
+        p = packet(c, '', paylen)
+        tx, _ = uart(c)
+        c.call((tx, 'writePacket'), p)
+        c.ensure('no-exception', 'raised is None')
+        c.ensure('one-write-nothing-else', "calls() == ('ser.write',)")
+        c.snapshot('frame', "bytes(sent('ser.write')[0][1][0])")
+        c.ensure('frame-start-length-data', "frame[:-1] == pack('<BBBB', 0xFF, %d, (src << 3) | dst | (0x40 if last else 0), fn) + bytes(pay)" % (paylen + 2))
+        c.ensure('frame-checksum', 'len(frame) == %d and frame[-1] == (%s)' % (paylen + 5, xor_of('frame', paylen + 4)))
+        c.ensure('waits-for-clear-to-send', 'tx._lock.locked()')
+    return k
+
+
+for _n in (0, 1, 30, 98):
+    _uart_write(_n)
+
+
+@contract('C18', 'uart.write.limit', UART + [TRN + ':UARTTransport.writePacket'],
+          clause='a packet whose wire data exceeds the 100-byte frame limit is refused with nothing put on the line (the one-byte length never wraps)',
+          bounded='payload length 99 (wire data 101 bytes), one header')
+def uart_write_limit(c):
+    p = c.new(CPX + ':CPXPacket', function=c.new(CPX + ':CPXFunction', 5), destination=c.new(CPX + ':CPXTarget', 4),
+              source=c.new(CPX + ':CPXTarget', 3), data=bytearray(99))
+    tx, _ = uart(c)
+    c.call((tx, 'writePacket'), p)
+    c.ensure('refused-nothing-written', "raised is not None and calls() == ()")
+
+
+def _uart_read(paylen):
+    @contract('C18', 'uart.read.len%d' % paylen, UART + [TRN + ':UARTTransport.readPacket', CPX + ':CPXPacket.__init__', CODEC[2]],
+              clause='CRTP packets tunnelled through CPX arrive unchanged (serial link): readPacket skips clear-to-send tokens (releasing the '
+                     'writer), returns the packet of the next data frame with source, destination, function, flag and payload as encoded, and '
+                     'answers it with a clear-to-send token',
+              bounded='payload length %d; one clear-to-send token, then one data frame, then the start of another frame' % paylen, max_paths=1000)
+    def k(c):
+        c.int('b0', 0, 255), c.int('fn', 0, 255)
+        c.require('(b0 >> 7) == 0 and (b0 & 7) in (1, 2, 3, 4) and ((b0 >> 3) & 7) in (1, 2, 3, 4) and fn in %r' % (FUNCTIONS,))
+        c.bytes('pay', paylen)
+        c.snapshot('body', "pack('<BBBB', 0xFF, %d, b0, fn) + pay" % (paylen + 2))
+        c.snapshot('crc', xor_of('body', paylen + 4))
+        tx, st = uart(c, "b'\\xff\\x00' + body + bytes([crc]) + b'\\xff\\x05'", 2 + paylen + 5 + 2)
+        held = c.choice('writer_waiting', [True])
+        c.invoke((c.getfield(tx, '_lock'), 'acquire'))         # a frame was written before: the writer waits for the token
+        c.call((tx, 'readPacket'))
+        c.ensure('no-exception', 'raised is None')
+        c.let('consumed', st['pos'])
+        c.ensure('consumed-exactly-token-and-frame', 'consumed == %d' % (2 + 2 + paylen + 5))
+        c.ensure('token-released-the-writer', 'not tx._lock.locked()')
+        c.ensure('answered-with-clear-to-send', "calls('ser.write') == ('ser.write',) and bytes(sent('ser.write')[0][1][0]) == b'\\xff\\x00'")
+        c.snapshot('q', 'result')
+        c.ensure('fields', "typename(q) == 'CPXPacket' and q.destination.value == (b0 & 7) and q.source.value == ((b0 >> 3) & 7) and "
+                           "q.lastPacket == ((b0 & 0x40) != 0) and q.function.value == fn and q.version == 0")
+        c.ensure('payload-and-length', 'bytes(q.data) == pay and q.length == %d' % paylen)
+    return k
+
+
+for _n in (0, 1, 30, 98):
+    _uart_read(_n)
+
+
+def _uart_roundtrip(paylen):
+    @contract('C18', 'uart.roundtrip.len%d' % paylen, UART + [TRN + ':UARTTransport.writePacket', TRN + ':UARTTransport.readPacket'] + CODEC,
+              clause='a CPX packet survives the serial link: what writePacket puts on the line is read back by readPacket of the peer as a '
+                     'packet with the same source, destination, function, last-packet flag and payload',
+              bounded='payload length %d' % paylen, max_paths=1000)
+    def k(c):
+        p = packet(c, '', paylen)
+        tx, _ = uart(c)
+        c.call((tx, 'writePacket'), p)
+        c.require("raised is None and len(sent('ser.write')) == 1")
+        c.snapshot('line', "bytes(sent('ser.write')[0][1][0])")
+        rx, st = uart(c, 'line', paylen + 5)
+        c.call((rx, 'readPacket'))
+        c.ensure('no-exception', 'raised is None')
+        c.snapshot('q', 'result')
+        c.ensure('five-fields', "is_same(q.source, p.source) and is_same(q.destination, p.destination) and "
+                                "is_same(q.function, p.function) and q.lastPacket == last and q.version == 0")
+        c.ensure('payload-and-length', 'bytes(q.data) == bytes(pay) and q.length == %d' % paylen)
+    return k
+
+
+for _n in (0, 30, 98):
+    _uart_roundtrip(_n)
